@@ -230,6 +230,17 @@ def run(ck):
         pairs = [(plain[i], plain[j]) for i in range(len(plain)) for j in range(len(plain)) if i != j]
         if quick:
             pairs = pairs[:: max(1, len(pairs) // 6)]
+        # lexicographic optimisation with three and four goals (later goals limited only by much earlier ones)
+        tri = [(plain[i], plain[j], plain[k2]) for i in range(len(plain)) for j in range(len(plain)) for k2 in range(len(plain))
+               if len({i, j, k2}) == 3 or (i == k2 and i != j)]
+        if tri:
+            tri = ck.rng.sample(tri, min(len(tri), 6 if quick else 60))
+        for gs3 in tri:
+            for cls in (SUABrute, IncBrute):
+                evs.append(run_one(env, cls, sysd, list(gs3), "lex", ("linear", "binary")[len(evs) % 2], policies[len(evs) % 5], ck.rng))
+        if len(plain) >= 4 and not quick:
+            for cls in (SUABrute, IncBrute):
+                evs.append(run_one(env, cls, sysd, plain[:4], "lex", "linear", "worst", ck.rng))
         for a, b in pairs:
             for cls in (SUABrute, IncBrute):
                 pol = policies[len(evs) % 5]
